@@ -60,6 +60,45 @@ CLAIMED = {
    note="Partial: 'report = reference parser' is a checked predicate on explored inputs (valid and re-sealed mutant headers), not a theorem; "
         "the theorems cover offsets/count/overflow-rejection/bounds of the model. Model tied to code by correspondence only.",
    technique="Lean 4 proof (induction over the index-entry loop, invariants on running sums) + differential correspondence against an independent Lean reference parser"),
+ 'C15': dict(
+   text="Machine-checked proof (Lean 4), for an arbitrary codec and hash function: in the model of comp_read / comp_end_dchunk / import_dict, "
+        "for every file whose chunks are decoded as a unit, every reader state satisfying the invariant and EVERY sequence of read buffer "
+        "sizes, everything the calls write to the caller's buffers is a prefix of decoded content of chunks whose stored bytes match "
+        "their index checksum and have the declared size; a chunk end that does not verify returns -1, empties the buffer and makes "
+        "the error sticky. Tied to the code by READSEQ on every single-bit body flip x three buffer sizes, evaluated against the "
+        "independent reference decoder.",
+   design_ref="DESIGN.md section 7 C15",
+   note="Trusted: Lean kernel (axioms propext, Classical.choice, Quot.sound); the hand-written step-machine model of comp_read is tied to "
+        "the C by correspondence on explored inputs only; libzstd's behaviour enters as a table computed by calling libzstd directly.",
+   technique="Lean 4 proof (invariant over the loop's step function, lifted by induction over fuel and over the call sequence) + differential correspondence"),
+ 'C02': dict(
+   text="Partial proof (Lean 4): on the model of comp_read/zck_close — unit-decoded reads return only verified content of the declared size "
+        "(C15 theorem), a chunk end succeeds only with consistent sizes and a matching checksum, and close succeeds iff no error occurred "
+        "and the whole-data checksum of the consumed body matches (skipped under the uncompressed-source flag). The full implication "
+        "'success => output equals the reference decoder's' is evaluated (not proved) against an independent Lean reference decoder on "
+        "valid files and raw / re-sealed / truncated / swapped / re-checksummed mutants under many read schedules.",
+   design_ref="DESIGN.md section 7 C02",
+   note="Partial: completeness/order of the delivered content (every chunk exactly once, in order) is not a theorem; unzck's glue is not modelled.",
+   technique="Lean 4 proof (partial: local soundness lemmas + C15 invariant) + differential correspondence against an independent Lean reference decoder"),
+ 'C14': dict(
+   text="Proof (Lean 4) on the model of zck_get_chunk_data / zck_get_chunk_comp_data: once the dictionary is loaded (or absent) a request's "
+        "result and resulting context are identical whatever the previous offset, pending stored bytes, position in the previous chunk, "
+        "current chunk, end-of-data marker, decoded buffer and chunk checksum context were; stored-data requests return exactly the bytes at "
+        "the chunk's extent. Equality with the chunk's slice of the content is evaluated against the reference decoder for ALL request "
+        "sequences of length <= 3 (exhaustive) and random long ones.",
+   design_ref="DESIGN.md section 7 C14",
+   note="Partial: 'returns exactly the chunk's content' relies on the correspondence runs (valid files only); the theorem is state-independence.",
+   technique="Lean 4 proof (definitional re-establishment of reader state) + exhaustive short request sequences as differential correspondence"),
+ 'C09': dict(
+   text="Partial proof (Lean 4) on the model of validate_checksums / zck_validate_data_checksum: both leave the descriptor at the data start with "
+        "a fresh running checksum and touch nothing else of the reader state; the data verdict is 1 only for a complete body hashing to the "
+        "header's data checksum; the per-chunk value is 1 exactly when all stored bytes could be read and hash to the index checksum. The "
+        "exact classification of every chunk for arbitrary damage, the all-failed rule, the detached-header rule and 'reads after "
+        "validations = reads without' are evaluated against the reference decoder on all 3^n damage subsets, all truncation lengths etc.",
+   design_ref="DESIGN.md section 7 C09",
+   note="Partial: the whole-scan exactness theorem (positions under truncation) is not proved, only its per-chunk core; file immutability is "
+        "checked by comparing the file before/after each SCAN op (the model has no write operation).",
+   technique="Lean 4 proof (partial: unfolding lemmas on the validator models) + differential correspondence over exhaustive damage subsets"),
 }
 
 NOT_YET = "machinery for this property is not built yet in this snapshot (work in progress; see DESIGN.md section 11 build order)"
